@@ -30,6 +30,7 @@ type simNet struct {
 	latMax  time.Duration
 	blocked map[[2]string]bool // partition: directed pairs that cannot talk
 	tap     func(src, dst string, buf []byte)
+	tap2    func(src, dst string, buf []byte) // invariant monitor
 	// when set, suspect/dead packets between survivors are dropped (own-evidence runs)
 	dropAccusations bool
 	sent, dropped   int64
@@ -90,10 +91,13 @@ func (t *simTransport) WriteTo(b []byte, addr string) (time.Time, error) {
 		ndup = 2
 	}
 	lats := []time.Duration{sn.latency(), sn.latency()}
-	tap := sn.tap
+	tap, tap2 := sn.tap, sn.tap2
 	sn.mu.Unlock()
 	if tap != nil {
 		tap(t.addr, addr, b)
+	}
+	if tap2 != nil {
+		tap2(t.addr, addr, b)
 	}
 	if drop {
 		atomic.AddInt64(&sn.dropped, 1)
@@ -434,6 +438,92 @@ func bubble(t *testing.T, prop, id string, f func()) {
 }
 
 func (cl *simCluster) since() time.Duration { return time.Since(cl.t0) }
+
+// invMonitor observes, on the real cluster, the conclusions of the cluster-level theorems
+// (C02_cluster_bounded, C08_cluster_left_is_left, address ownership in Swim.Props.ClusterG): every
+// alive/suspect/dead message a node puts on the wire names an incarnation its subject itself has
+// reached, alive messages carry the subject's own address, and a self-signed dead message exists
+// only for a member that called Leave. Members whose process restarted (counter reset) are skipped:
+// the theorems are about restart-free histories.
+type invMonitor struct {
+	mu    sync.Mutex
+	seen  map[string]ml.VerifClaim
+	skip  map[string]bool
+	total int
+}
+
+func (cl *simCluster) startMonitor() *invMonitor {
+	mon := &invMonitor{seen: map[string]ml.VerifClaim{}, skip: map[string]bool{}}
+	cl.net.mu.Lock()
+	cl.net.tap2 = func(src, dst string, buf []byte) {
+		for _, p := range simParts(buf) {
+			if len(p) < 2 || (p[0] != 3 && p[0] != 4 && p[0] != 5) {
+				continue
+			}
+			c, ok := ml.VerifDecodeClaim(p[0], p[1:])
+			if !ok {
+				continue
+			}
+			key := fmt.Sprintf("%d/%s/%d/%s/%x/%d", c.Type, c.Node, c.Incarnation, c.From, c.Addr, c.Port)
+			mon.mu.Lock()
+			mon.total++
+			if c.Type == 5 && c.From != c.Node {
+				key = fmt.Sprintf("5/%s/%d/accuser", c.Node, c.Incarnation)
+			}
+			if c.Type == 3 {
+				key = fmt.Sprintf("3/%s/%d", c.Node, c.Incarnation)
+			}
+			mon.seen[key] = c
+			mon.mu.Unlock()
+		}
+	}
+	cl.net.mu.Unlock()
+	return mon
+}
+
+// verdict evaluates every distinct claim seen so far against the current state of its subject
+// (incarnations only grow, addresses and the Leave flag do not change back): "ok" or the first violation.
+func (mon *invMonitor) verdict(nodes []*simNode) string {
+	mon.mu.Lock()
+	defer mon.mu.Unlock()
+	byName := map[string]*simNode{}
+	for _, nd := range nodes {
+		byName[nd.name] = nd
+	}
+	var keys []string
+	for k := range mon.seen {
+		keys = append(keys, k)
+	}
+	sort.Strings(keys)
+	for _, k := range keys {
+		c := mon.seen[k]
+		s := byName[c.Node]
+		if s == nil || mon.skip[c.Node] {
+			continue
+		}
+		snap := ml.VerifSnapshotState(s.m)
+		var me *ml.VerifNodeState
+		for i := range snap.Nodes {
+			if snap.Nodes[i].Name == c.Node {
+				me = &snap.Nodes[i]
+			}
+		}
+		own := snap.Incarnation // own record reaped after Leave: fall back to the counter
+		if me != nil {
+			own = me.Incarnation
+		}
+		if c.Incarnation > own {
+			return fmt.Sprintf("claim-above-subject:type%d:%s:%d>%d", c.Type, c.Node, c.Incarnation, own)
+		}
+		if c.Type == 4 && !(net.IP(c.Addr).Equal(s.tr.ip) && int(c.Port) == s.tr.port) {
+			return fmt.Sprintf("alive-with-foreign-address:%s", c.Node)
+		}
+		if c.Type == 5 && c.From == c.Node && !snap.HasLeft {
+			return fmt.Sprintf("departure-of-member-that-did-not-leave:%s", c.Node)
+		}
+	}
+	return "ok"
+}
 
 func names(ns []*simNode) string {
 	var s []string
